@@ -200,6 +200,7 @@ class UCFG(UGrammar[U, List[Tuple[Type, U]], List[Tuple[Type, U]]], Generic[U]):
         rules: dict[
             Tuple[Type, U], dict[DerivableProgram, List[List[Tuple[Type, U]]]]
         ] = {}
+        constants = {t: Constant.distinct_values(t, v) for t, v in constants.items()}
         for NT in self.rules:
             rules[NT] = {}
             for P in self.rules[NT]:
